@@ -188,6 +188,13 @@ func (w *World) NewEnv(routerID string) *Env {
 		w.HarnessError("NewServer(%s): %v", routerID, err)
 		return nil
 	}
+	if w.Draw(4, "second-server") == 3 {
+		// another Server in the same process, with another router id (never served):
+		// nothing of it may show in this one
+		if _, err := corebgp.NewServer(netip.MustParseAddr("198.51.100.200")); err == nil {
+			w.Probe("second-server-in-the-process")
+		}
+	}
 	return &Env{w: w, Srv: srv, RouterID: IPToU32(routerID), LocalIP: w.Net.LocalIP, Controls: map[string]int{}}
 }
 
